@@ -254,7 +254,10 @@ func run(seed int64, n int, dir string, _ []string) {
 		o.Count(fmt.Sprintf("table:rows=%d", nrows/100*100))
 
 		// GROUP BY: bucket membership and order (LISTAGG lists the ids of a bucket in row order)
-		v, err := pr.Query("SELECT LISTAGG(id, ',') AS ids, COUNT(*) AS n, COUNT(v) AS nv, SUM(v) AS s, MIN(v) AS mn, MAX(v) AS mx, AVG(v) AS av, MEDIAN(v) AS md FROM t GROUP BY " + keyList)
+		_, _ = pr.Exec("DECLARE cntpos AGGREGATE (c) AS BEGIN VAR @n := 0; VAR @x; WHILE @x IN c DO IF @x > 0 THEN @n := @n + 1; END IF; END WHILE; RETURN @n; END;")
+		const aggs = "COUNT(*) AS n, COUNT(v) AS nv, SUM(v) AS s, MIN(v) AS mn, MAX(v) AS mx, AVG(v) AS av, MEDIAN(v) AS md, COUNT(DISTINCT v) AS cd, SUM(DISTINCT v) AS sd, LISTAGG(v, ',') AS lv, LISTAGG(DISTINCT v, ';') AS ld, JSON_AGG(v) AS ja, STDEV(v) AS sv, VAR(v) AS vr, cntpos(v) AS up"
+		const naggs = 15
+		v, err := pr.Query("SELECT LISTAGG(id, ',') AS ids, " + aggs + " FROM t GROUP BY " + keyList)
 		if err != nil {
 			o.Law("group_sql_error", err.Error())
 		} else {
@@ -268,12 +271,12 @@ func run(seed int64, n int, dir string, _ []string) {
 			// compare with the same aggregate over the ungrouped rows `WHERE id IN (members)`
 			for gi := 0; gi < v.RecordLen() && gi < 6; gi++ {
 				members := hc.StrOf(hc.ViewCell(v, gi, 0))
-				w, err := pr.Query("SELECT COUNT(*), COUNT(v), SUM(v), MIN(v), MAX(v), AVG(v), MEDIAN(v) FROM t WHERE id IN (" + members + ")")
+				w, err := pr.Query("SELECT " + aggs + " FROM t WHERE id IN (" + members + ")")
 				if err != nil {
 					o.Law("aggregate_sql_error", err.Error())
 					continue
 				}
-				for c := 0; c < 7; c++ {
+				for c := 0; c < naggs; c++ {
 					a, b := hc.EncVal(hc.ViewCell(v, gi, c+1)), hc.EncVal(hc.ViewCell(w, 0, c))
 					if a != b {
 						o.Law("aggregate_over_bucket", map[string]interface{}{"agg": c, "members": members, "grouped": a, "over_members": b})
@@ -335,6 +338,7 @@ func run(seed int64, n int, dir string, _ []string) {
 			pr.DisposeTable("u")
 		}
 		pr.DisposeTable("t")
+		_, _ = pr.Exec("DISPOSE FUNCTION cntpos;")
 	}
 }
 
